@@ -3987,7 +3987,7 @@ pub struct Context {
     idm: Singleton<IdManager>,
     document: Rc<XmlItem>,
     ordering: Singleton<DocumentOrder>,
-    id_map: Singleton<HashMap<usize, Weak<XmlItem>>>,
+    id_map: Singleton<HashMap<usize, WeakXmlItem>>,
     text_expanded: bool,
 }
 
@@ -4015,7 +4015,7 @@ impl Context {
         let id_map = singleton(HashMap::new());
         id_map
             .borrow_mut()
-            .insert(info.borrow().id, Rc::downgrade(&document));
+            .insert(info.borrow().id, WeakXmlItem::from(&*document));
 
         Context {
             info,
@@ -4030,7 +4030,7 @@ impl Context {
     fn add_item(&self, node: &Rc<XmlItem>) {
         self.id_map
             .borrow_mut()
-            .insert(self.info.borrow().id, Rc::downgrade(node));
+            .insert(self.info.borrow().id, WeakXmlItem::from(&**node));
     }
 
     fn document(&self) -> XmlNode<XmlDocument> {
@@ -4094,6 +4094,73 @@ impl Context {
             id_map: self.id_map.clone(),
             text_expanded: self.text_expanded,
         }
+    }
+}
+
+// -----------------------------------------------------------------------------------------------
+
+/// Weak handle to the node itself, not to a `Rc<XmlItem>` wrapper around it: wrappers are
+/// created and dropped freely, and a lookup by id must work as long as the node is alive.
+enum WeakXmlItem {
+    Attribute(Weak<RefCell<XmlAttribute>>),
+    CData(Weak<RefCell<XmlCData>>),
+    CharReference(Weak<RefCell<XmlCharReference>>),
+    Comment(Weak<RefCell<XmlComment>>),
+    DeclarationAttList(Weak<RefCell<XmlDeclarationAttList>>),
+    Document(Weak<RefCell<XmlDocument>>),
+    DocumentType(Weak<RefCell<XmlDocumentTypeDeclaration>>),
+    Element(Weak<RefCell<XmlElement>>),
+    Entity(Weak<RefCell<XmlEntity>>),
+    Namespace(Weak<RefCell<XmlNamespace>>),
+    Notation(Weak<RefCell<XmlNotation>>),
+    PI(Weak<RefCell<XmlProcessingInstruction>>),
+    Text(Weak<RefCell<XmlText>>),
+    Unexpanded(Weak<RefCell<XmlUnexpandedEntityReference>>),
+    Unparsed(Weak<RefCell<XmlUnparsedEntity>>),
+}
+
+impl From<&XmlItem> for WeakXmlItem {
+    fn from(value: &XmlItem) -> Self {
+        match value {
+            XmlItem::Attribute(v) => WeakXmlItem::Attribute(Rc::downgrade(v)),
+            XmlItem::CData(v) => WeakXmlItem::CData(Rc::downgrade(v)),
+            XmlItem::CharReference(v) => WeakXmlItem::CharReference(Rc::downgrade(v)),
+            XmlItem::Comment(v) => WeakXmlItem::Comment(Rc::downgrade(v)),
+            XmlItem::DeclarationAttList(v) => WeakXmlItem::DeclarationAttList(Rc::downgrade(v)),
+            XmlItem::Document(v) => WeakXmlItem::Document(Rc::downgrade(v)),
+            XmlItem::DocumentType(v) => WeakXmlItem::DocumentType(Rc::downgrade(v)),
+            XmlItem::Element(v) => WeakXmlItem::Element(Rc::downgrade(v)),
+            XmlItem::Entity(v) => WeakXmlItem::Entity(Rc::downgrade(v)),
+            XmlItem::Namespace(v) => WeakXmlItem::Namespace(Rc::downgrade(v)),
+            XmlItem::Notation(v) => WeakXmlItem::Notation(Rc::downgrade(v)),
+            XmlItem::PI(v) => WeakXmlItem::PI(Rc::downgrade(v)),
+            XmlItem::Text(v) => WeakXmlItem::Text(Rc::downgrade(v)),
+            XmlItem::Unexpanded(v) => WeakXmlItem::Unexpanded(Rc::downgrade(v)),
+            XmlItem::Unparsed(v) => WeakXmlItem::Unparsed(Rc::downgrade(v)),
+        }
+    }
+}
+
+impl WeakXmlItem {
+    fn upgrade(&self) -> Option<Rc<XmlItem>> {
+        let item = match self {
+            WeakXmlItem::Attribute(v) => XmlItem::Attribute(v.upgrade()?),
+            WeakXmlItem::CData(v) => XmlItem::CData(v.upgrade()?),
+            WeakXmlItem::CharReference(v) => XmlItem::CharReference(v.upgrade()?),
+            WeakXmlItem::Comment(v) => XmlItem::Comment(v.upgrade()?),
+            WeakXmlItem::DeclarationAttList(v) => XmlItem::DeclarationAttList(v.upgrade()?),
+            WeakXmlItem::Document(v) => XmlItem::Document(v.upgrade()?),
+            WeakXmlItem::DocumentType(v) => XmlItem::DocumentType(v.upgrade()?),
+            WeakXmlItem::Element(v) => XmlItem::Element(v.upgrade()?),
+            WeakXmlItem::Entity(v) => XmlItem::Entity(v.upgrade()?),
+            WeakXmlItem::Namespace(v) => XmlItem::Namespace(v.upgrade()?),
+            WeakXmlItem::Notation(v) => XmlItem::Notation(v.upgrade()?),
+            WeakXmlItem::PI(v) => XmlItem::PI(v.upgrade()?),
+            WeakXmlItem::Text(v) => XmlItem::Text(v.upgrade()?),
+            WeakXmlItem::Unexpanded(v) => XmlItem::Unexpanded(v.upgrade()?),
+            WeakXmlItem::Unparsed(v) => XmlItem::Unparsed(v.upgrade()?),
+        };
+        Some(Rc::new(item))
     }
 }
 
